@@ -3,7 +3,7 @@
    sumbool mapped to OCaml's own); N, positive, Z, byte are extracted as is. *)
 From Coq Require Extraction.
 From Coq Require Import ExtrOcamlBasic.
-From GoUefi Require Import Base.Bytes Base.Hex Base.Outcome Model.Util Spec.C17Check.
+From GoUefi Require Import Base.Bytes Base.Hex Base.Outcome Model.Util Model.WinCert Spec.C17Check Spec.C10Check.
 
 Extraction Language OCaml.
 Set Extraction Optimize.
@@ -12,4 +12,6 @@ Extraction "model.ml"
   Spec.C17Check.check_format Spec.C17Check.apply_case Spec.C17Check.check_parse
   Spec.C17Check.check_to_bytes Spec.C17Check.check_from_bytes Spec.C17Check.check_cmp
   Spec.C17Check.check_wire Spec.C17Check.check_marshal Spec.C17Check.check_parse_utf16
-  Spec.C17Check.check_efistring Model.Util.guid_format Model.Util.valid_scalar.
+  Spec.C17Check.check_efistring Model.Util.guid_format Model.Util.valid_scalar
+  Spec.C10Check.check_read_auth2 Spec.C10Check.auth2_decodes Spec.C10Check.check_read_wincert
+  Spec.C10Check.wincert_decodes Spec.C10Check.check_write_auth2.
